@@ -118,6 +118,48 @@ impl Bytes {
             None
         }
     }
+    pub fn first(&self) -> Option<u8> {
+        self.get(0)
+    }
+    pub fn last(&self) -> Option<u8> {
+        if self.0.len == 0 {
+            None
+        } else {
+            self.get((self.0.len - 1) as u32)
+        }
+    }
+    pub fn get_unchecked(&self, i: u32) -> u8 {
+        match self.get(i) {
+            Some(x) => x,
+            None => crate::mtrap!("TRAP:bytes index"),
+        }
+    }
+    pub fn set(&mut self, i: u32, x: u8) {
+        if (i as usize) >= self.0.len || (i as usize) >= BCAP {
+            crate::mtrap!("TRAP:bytes index");
+        }
+        self.0.d[i as usize] = x;
+    }
+    /// sub-range [a, b)
+    pub fn slice(&self, r: core::ops::Range<u32>) -> Bytes {
+        let (a, b) = (r.start as usize, r.end as usize);
+        if a > b || b > self.0.len {
+            crate::mtrap!("TRAP:bytes slice range");
+        }
+        let mut o = Buf::new();
+        let mut i = 0;
+        while i < BCAP {
+            if i >= a && i < b {
+                o.d[i - a] = self.0.d[i];
+            }
+            i += 1;
+        }
+        o.len = b - a;
+        Bytes(o)
+    }
+    pub fn iter(&self) -> BytesIter {
+        BytesIter { b: self.0, i: 0 }
+    }
     pub fn to_val(&self) -> Val {
         Val::bufv(T_BYTES, self.0)
     }
@@ -145,6 +187,22 @@ impl Bytes {
         }
         v.truncate(self.0.len);
         v
+    }
+}
+pub struct BytesIter {
+    b: Buf,
+    i: usize,
+}
+impl Iterator for BytesIter {
+    type Item = u8;
+    fn next(&mut self) -> Option<u8> {
+        if self.i < self.b.len && self.i < BCAP {
+            let x = self.b.d[self.i];
+            self.i += 1;
+            Some(x)
+        } else {
+            None
+        }
     }
 }
 impl Ser for Bytes {
